@@ -554,6 +554,10 @@ func (f *FaceModule) query(interest *spec.Interest, pitToken []byte, _ uint64) {
 		return
 	}
 	filter := filterV.Val
+	if filter == nil {
+		core.LogWarn(f, "Missing FaceQueryFilter in ", interest.Name())
+		return
+	}
 
 	faces := face.FaceTable.GetAll()
 	matchingFaces := make([]int, 0)
